@@ -357,7 +357,7 @@ static void history(Rng &r, size_t steps)
                 catch (const ST::unicode_error &) { if (ref::utf8_ok(mt)) p.fail("unexpected-unicode_error", d); }
                 break;
             }
-            case 12: s.set_validated(t.c_str(), t.size()); p.shadow[i] = mt; d = sfmt("s%zu.set_validated(s%zu bytes)", i, j); if (i == j) vrt::count("op.self_referential"); break;
+            case 12: if (r.chance(1, 2)) s.set_validated(t.c_str(), t.size()); else s.set_validated(t.u8_str(), t.size()); p.shadow[i] = mt; d = sfmt("s%zu.set_validated(s%zu bytes)", i, j); if (i == j) vrt::count("op.self_referential"); break;
             case 13: s = s.substr(1); p.shadow[i] = ref::substr(p.shadow[i], 1, static_cast<size_t>(-1)); d = sfmt("s%zu = s%zu.substr(1)", i, i); vrt::count("op.self_referential"); break;
             case 14:
                 // assignment from a pointer / view into the string's own storage
@@ -376,7 +376,15 @@ static void history(Rng &r, size_t steps)
                     } catch (const ST::unicode_error &) { if (subst || ref::utf8_ok(src)) p.fail("unexpected-unicode_error", d); }
                     break;
                 }
-                case 0: s.set(s); d = sfmt("s%zu.set(self)", i); break;
+                case 0: if (r.chance(1, 2)) { s.set(s); d = sfmt("s%zu.set(self)", i); }
+                        else {   // a sub-range of its own bytes, through both spellings of set_validated
+                            const size_t k = r.below(p.shadow[i].size() + 1), n = r.below(p.shadow[i].size() - k + 1);
+                            const S want = p.shadow[i].substr(k, n);
+                            if (r.chance(1, 2)) s.set_validated(s.c_str() + k, n); else s.set_validated(s.u8_str() + k, n);
+                            p.shadow[i] = want;
+                            d = sfmt("s%zu.set_validated(own bytes %zu,%zu)", i, k, n);
+                        }
+                        break;
                 case 1: { size_t z = p.shadow[i].find('\0'); S want = z == S::npos ? p.shadow[i] : p.shadow[i].substr(0, z);
                           d = sfmt("s%zu = s%zu.c_str()", i, i);
                           try { s = s.c_str(); p.shadow[i] = want; } catch (const ST::unicode_error &) { if (ref::utf8_ok(want)) p.fail("unexpected-unicode_error", d); }
@@ -392,9 +400,10 @@ static void history(Rng &r, size_t steps)
                           d = sfmt("s%zu = s%zu.u8_str()", i, i);
                           try { s = s.u8_str(); p.shadow[i] = want; } catch (const ST::unicode_error &) { if (ref::utf8_ok(want)) p.fail("unexpected-unicode_error", d); }
                           break; }
-                default: { size_t z = p.shadow[i].find('\0'); S tail = z == S::npos ? p.shadow[i] : p.shadow[i].substr(0, z);
-                          d = sfmt("s%zu += s%zu.c_str()", i, i);
-                          try { s += s.c_str(); p.shadow[i] += tail; } catch (const ST::unicode_error &) { if (ref::utf8_ok(tail)) p.fail("unexpected-unicode_error", d); }
+                default: { const size_t k = r.chance(1, 2) ? 0 : r.below(p.shadow[i].size() + 1);
+                          size_t z = p.shadow[i].find('\0', k); S tail = z == S::npos ? p.shadow[i].substr(k) : p.shadow[i].substr(k, z - k);
+                          d = sfmt("s%zu += s%zu.c_str()+%zu", i, i, k);
+                          try { s += s.c_str() + k; p.shadow[i] += tail; } catch (const ST::unicode_error &) { if (ref::utf8_ok(tail)) p.fail("unexpected-unicode_error", d); }
                           break; }
                 }
                 vrt::count("op.self_referential");
